@@ -709,6 +709,17 @@ class NF:
             if fn == "deser_it":
                 var = ("var", env.vdepth)
                 return self.mk_map(self._map_fn(var, "dec", env.child(vdepth=env.vdepth + 1)), var, src, env)
+            if isinstance(e.args[0], (ast.Name, ast.Attribute)) and not e.keywords:
+                # map(f, xs) is (f(x) for x in xs)
+                v = f"m{env.vdepth}_"
+                g = ast.GeneratorExp(elt=ast.Call(func=e.args[0], args=[ast.Name(id=v, ctx=ast.Load())], keywords=[]),
+                                     generators=[ast.comprehension(target=ast.Name(id=v, ctx=ast.Store()), iter=e.args[1], ifs=[], is_async=0)])
+                ast.copy_location(g, e)
+                ast.fix_missing_locations(g)
+                try:
+                    return self.ev(g, env)
+                except Opaque:
+                    pass
             return ("call", "map", (("opaque", fn), src), ())
         if fs == "len" and len(e.args) == 1:
             return self.mk_len(self.ev(e.args[0], env))
